@@ -64,7 +64,7 @@ fn g2() -> G2 {
     G2::one()
 }
 
-pub const N_OPS: usize = 16;
+pub const N_OPS: usize = 18;
 pub const OP_NAMES: [&str; N_OPS] = [
     "G1 add/double/negate chain",
     "G1 mul_assign",
@@ -82,6 +82,8 @@ pub const OP_NAMES: [&str; N_OPS] = [
     "serialize/deserialize G2, Fr, Fq12",
     "G1::random under a fixed-seed xorshift",
     "Fq sqrt, Fq2 sqrt, Fq12 inverse",
+    "G1 sum_of_products rejecting a scalar >= 2^255 (the call panics; the panic is caught)",
+    "hash_to_field beyond the 255-block limit (the call aborts; the panic is caught)",
 ];
 /// one operation instance on fixed operands; returns its bit-level output
 pub fn run_op(i: usize) -> Vec<u8> {
@@ -194,6 +196,31 @@ pub fn run_op(i: usize) -> Vec<u8> {
             let mut rng = rand_xorshift::XorShiftRng::from_seed([7u8; 16]);
             raw_g1(&G1::random(&mut rng))
         }
+        16 => {
+            // documented precondition violated on the SECOND component, after the first was already processed
+            let pts = vec![g1().into_affine(), { let mut p = g1(); p.double(); p.into_affine() }, { let mut p = g1(); p.negate(); p.into_affine() }];
+            let k0 = frrepr(&(crate::alpha::pow2(254) + crate::alpha::pow2(253) + BigUint::from(5u32))).0;
+            let k1 = frrepr(&(crate::alpha::pow2(255) + BigUint::from(1u32))).0;
+            let k2 = k(33).0;
+            let r = std::panic::catch_unwind(|| G1Affine::sum_of_products(&pts, &[&k0, &k1, &k2]));
+            match r {
+                Ok(p) => raw_g1(&p),
+                Err(_) => b"PANICKED".to_vec(),
+            }
+        }
+        17 => {
+            let r = std::panic::catch_unwind(|| pairing_plus::hash_to_field::hash_to_field::<Fq, ExpandMsgXmd<sha2::Sha256>>(b"msg", b"dst", 200));
+            match r {
+                Ok(v) => {
+                    let mut o = vec![];
+                    for x in v.iter().take(2) {
+                        raw_fq(x, &mut o);
+                    }
+                    o
+                }
+                Err(_) => b"PANICKED".to_vec(),
+            }
+        }
         _ => {
             let mut out = vec![];
             let x = Fq::from_repr(fqrepr(&BigUint::from(9u32))).unwrap();
@@ -232,7 +259,7 @@ fn histories(ctx: &Ctx, base: &[Vec<u8>]) {
     // single-threaded on purpose: the verdict must not depend on which other histories run concurrently
     let inj = ctx.injecting("C20");
     let full: Vec<usize> = (0..N_OPS).collect();
-    let cheap: Vec<usize> = vec![0, 1, 3, 4, 7, 8, 11, 12];
+    let cheap: Vec<usize> = vec![0, 1, 3, 4, 6, 7, 8, 11, 12, 16, 17];
     let plans: Vec<(usize, &Vec<usize>)> = if ctx.quick() { vec![(1, &full), (2, &full), (3, &cheap)] } else { vec![(1, &full), (2, &full), (3, &full)] };
     for (len, alpha) in plans {
         let sub = format!("histories.len{}", len);
@@ -450,6 +477,6 @@ pub fn run(ctx: &Ctx) -> (&'static str, &'static str) {
     ctx.assume("bit-level observations are the in-memory Montgomery limbs of every coordinate / coefficient");
     (
         "model_checking",
-        "histories: all sequences of length 1, 2 (and 3: quick over an 8-op sub-alphabet, thorough over all) of 16 operation instances on fixed operands (group arithmetic, three multiplication paths, reused wNAF context, multi-scalar multiplication, preparation of Q and -Q, pairing, Miller loop + final exponentiation, encode/decode, hashing, (de)serialization, random under a fixed-seed RNG, square roots), each history in a fresh thread, every output compared bit for bit with the same instance run first in a fresh process; schedules: harnesses H1..H7 of 2-3 real threads sharing a wNAF table, a digit string, prepared pairing elements, a precomputation table, input bytes, or nothing, explored under ALL schedules with at most 2 (quick) / 3 (thorough) preemptions, each thread's output compared bit for bit with the sequential run; the default schedule is replayed twice to confirm the explorer owns all nondeterminism",
+        "histories: all sequences of length 1, 2 (and 3: quick over an 8-op sub-alphabet, thorough over all) of 16 operation instances on fixed operands (group arithmetic, three multiplication paths, reused wNAF context, multi-scalar multiplication, preparation of Q and -Q, pairing, Miller loop + final exponentiation, encode/decode, hashing, (de)serialization, random under a fixed-seed RNG, square roots, and two calls that violate a documented precondition and end in a caught panic), each history in a fresh thread, every output compared bit for bit with the same instance run first in a fresh process; schedules: harnesses H1..H7 of 2-3 real threads sharing a wNAF table, a digit string, prepared pairing elements, a precomputation table, input bytes, or nothing, explored under ALL schedules with at most 2 (quick) / 3 (thorough) preemptions, each thread's output compared bit for bit with the sequential run; the default schedule is replayed twice to confirm the explorer owns all nondeterminism",
     )
 }
